@@ -17,6 +17,9 @@ pub enum Rev {
     Eof,
     Err(io::ErrorKind),
     Pend,
+    /// `r<count>x<hex>`: the chunk is delivered <count> times, one per poll, WITHOUT being recorded in `delivered`
+    /// (sustained input whose bookkeeping must not drown the library's own memory use in the heap meter)
+    Repeat(Vec<u8>, usize),
 }
 #[derive(Debug, Clone)]
 pub enum Wev {
@@ -53,6 +56,14 @@ pub fn parse_revs(s: &str) -> Option<Vec<Rev>> {
                 None
             } else {
                 Some(Rev::Data(v))
+            }
+        } else if let Some(rest) = e.strip_prefix('r') {
+            let (n, h) = rest.split_once('x')?;
+            let v = unhex(h)?;
+            if v.is_empty() {
+                None
+            } else {
+                Some(Rev::Repeat(v, n.parse().ok()?))
             }
         } else {
             None
@@ -160,6 +171,25 @@ impl AsyncRead for Transport {
             }
             Some(Rev::Eof) => Poll::Ready(Ok(())),
             Some(Rev::Err(k)) => Poll::Ready(Err(io::Error::new(k, "scripted read error"))),
+            Some(Rev::Repeat(d, left)) => {
+                // delivered whole or not at all in this poll; a chunk that does not fit is delivered in pieces like Data
+                if d.len() > buf.remaining() {
+                    let mut head = d.clone();
+                    let rest = head.split_off(buf.remaining());
+                    buf.put_slice(&head);
+                    s.clipped = true;
+                    if left > 1 {
+                        s.rq.push_front(Rev::Repeat(d, left - 1));
+                    }
+                    s.rq.push_front(Rev::Data(rest));
+                } else {
+                    buf.put_slice(&d);
+                    if left > 1 {
+                        s.rq.push_front(Rev::Repeat(d, left - 1));
+                    }
+                }
+                Poll::Ready(Ok(()))
+            }
             Some(Rev::Data(mut d)) => {
                 let n = d.len().min(buf.remaining());
                 s.max_read_capacity_seen = s.max_read_capacity_seen.max(buf.remaining());
